@@ -135,12 +135,14 @@ package staking
 // ---- post-execution fee / nonce update (C09): mempool (CheckTx) state only ----
 
 //@ func Application.PostExecuteTx
+//@   assume-pre api\.Context\.TxSigner$
 //@   props C09 C08
 //@   requires ctx != nil && tx != nil
 //@   ensures !old(api.IsCheck(ctx)) ==> err == nil && stakingState.GWrites == old(stakingState.GWrites) && mapEq(stakingState.GNonce, old(stakingState.GNonce))
 //@   note outside CheckTx the post-execution hook writes nothing: in block delivery the nonce is advanced and the fee charged exactly once, by AuthenticateAndPayFees before execution
 
 //@ func Application.AuthenticateTx
+//@   assume-pre api\.Context\.TxSigner$
 //@   props C09
 //@   requires ctx != nil && tx != nil && stakingState.FeeAmt(tx.Fee) >= 0
 //@   precall state\.AuthenticateAndPayFees$ :: argIs(0, ctx) && argIs(1, api.Signer(ctx)) && argIs(2, tx.Nonce) && argIs(3, tx.Fee)
